@@ -324,6 +324,11 @@ impl<M: Manager, W: From<Object<M>>> Pool<M, W> {
     ///
     /// See [`PoolError`] for details.
     pub async fn timeout_get(&self, timeouts: &Timeouts) -> Result<W, PoolError<M::Error>> {
+        // A recycle timeout can not be applied without a runtime. Report
+        // this before any idle object is touched.
+        if timeouts.recycle.is_some() && self.inner.runtime.is_none() {
+            return Err(PoolError::NoRuntimeSpecified);
+        }
         let _ = self.inner.users.fetch_add(1, Ordering::Relaxed);
         let users_guard = DropGuard(|| {
             let _ = self.inner.users.fetch_sub(1, Ordering::Relaxed);
